@@ -90,6 +90,14 @@ Theorem update_forms_roundtrip : forall o m z max_size request_payload w,
 Proof. exact update_forms_roundtrip_stmt. Qed.
 Print Assumptions update_forms_roundtrip.
 
+(* ... also with a padding block size *)
+Theorem update_forms_roundtrip_padded : forall o pad m z max_size request_payload w,
+  org_ok o -> WfUpd o m z -> wf_tsig m ->
+  to_wire m o max_size request_payload false pad = Ok w ->
+  exists m', from_wire w o po0 = Ok m' /\ msg_equiv_p pad m' m.
+Proof. exact update_forms_roundtrip_padded_stmt. Qed.
+Print Assumptions update_forms_roundtrip_padded.
+
 (* ... and the parsed update renders to the same octets again *)
 Theorem update_forms_rerender_identical : forall o m z max_size request_payload w m',
   org_ok o -> WfUpd o m z -> wf_tsig m ->
